@@ -41,7 +41,7 @@ CUR = {}
 
 def streams(ctx):
     return [("docstrings", ctx.scale(2500, 40000)), ("keyword_prose", ctx.scale(800, 12000)),
-            ("format_prose", ctx.scale(800, 12000))]
+            ("format_prose", ctx.scale(800, 12000)), ("file_route", ctx.scale(60, 900))]
 
 
 # prose carrying what a template engine, a %-format, a shell or a markup language would interpret (to a docstring converter
@@ -117,7 +117,75 @@ def in_order(needles, haystack_lines):
     return None
 
 
+def run_file_route(ctx, P, stream, idx):
+    """the same guarantee through the command that rewrites a file: a module with a documented class, a documented method and
+    a documented function goes through `doctrans`; every header line of each of the three docstrings is still a whole line
+    of that definition's docstring afterwards"""
+    import os
+    import shutil
+    import tempfile
+
+    import cdd.compound.doctrans
+
+    r = ctx.rng(stream, idx)
+    T = r.choice(STYLES)
+    docs, heads = {}, {}
+    for who, indent in (("cls", 1), ("method", 2), ("func", 1)):
+        S = r.choice(STYLES)
+        params = [("x", "int", irgen.rand_doc(r, stop=False), Ellipsis), ("y", "int", irgen.rand_doc(r, stop=False), Ellipsis)]
+        if who == "cls":
+            # a class docstring: header prose only, or followed by ReST :cvar entries
+            h = docgen.header(r, r.randint(1, 3))
+            body = h + ("\n\n:cvar factor: %s" % irgen.rand_doc(r, stop=False) if r.random() < 0.6 else "")
+            text = "\n" + docgen.indent_text(body, indent) + "\n" + "    " * indent
+            heads[who] = header_lines(h)
+        else:
+            text, parts = docgen.compose(r, S, indent=indent, params=params, paragraphs=r.randint(1, 3), with_footer=False,
+                                         returns=None)
+            heads[who] = header_lines(parts["header"])
+        docs[who] = text
+    src = ('class Scaler(object):\n    """%s"""\n    factor: int = 2\n\n    def scale(self, x, y=2):\n        """%s"""\n'
+           '        return x * y\n\n\ndef top(x, y=1):\n    """%s"""\n    return x + y\n' % (docs["cls"], docs["method"], docs["func"]))
+    P.case({"module": src, "T": T}, klass="file_route/%s" % T, sample={"target_style": T, "module": src[:600]})
+    d = tempfile.mkdtemp(prefix="vcdd-c15-")
+    try:
+        path = os.path.join(d, "m.py")
+        with open(path, "w") as fh:
+            fh.write(src)
+        ta = r.random() < 0.5
+        try:
+            cdd.compound.doctrans.doctrans(filename=path, docstring_format=T, type_annotations=ta, no_word_wrap=None)
+        except Exception as e:
+            P.count("file_route.doctrans.raised:%s" % type(e).__name__)
+            return
+        with open(path) as fh:
+            after = fh.read()
+        P.monitor("file-route.observed")
+        try:
+            tree = ast.parse(after)
+        except SyntaxError:
+            P.count("file_route.output-not-python")  # (C07's verdict)
+            return
+        cls = next((n for n in tree.body if isinstance(n, ast.ClassDef)), None)
+        nodes = {"cls": cls, "method": next((n for n in (cls.body if cls else ()) if isinstance(n, ast.FunctionDef)), None),
+                 "func": next((n for n in tree.body if isinstance(n, ast.FunctionDef)), None)}
+        for who, node in nodes.items():
+            got = ast.get_docstring(node, clean=False) if node is not None else None
+            P.monitor("file-route.header.checked")
+            missing = heads[who][0] if got is None else in_order(heads[who], [l.strip() for l in got.split("\n")])
+            if missing is not None:
+                P.deviation("file-route.header-line-lost|who=%s,T=%s,ta=%s" % (who, T, ta),
+                            "after doctrans the docstring of the %s %s header line %r" % (
+                                {"cls": "class", "method": "method", "func": "function"}[who],
+                                "is gone, and with it" if got is None else "lacks", missing[:80]),
+                            {"stream": stream, "idx": idx, "module": src, "after": after, "target": T})
+    finally:
+        shutil.rmtree(d, ignore_errors=True)
+
+
 def run_case(ctx, P, stream, idx):
+    if stream == "file_route":
+        return run_file_route(ctx, P, stream, idx)
     if stream == "format_prose":
         with irgen.extra_words(FORMAT_WORDS * 2):
             return _run_case(ctx, P, stream, idx)
